@@ -976,13 +976,16 @@ func (h *NtfnsHandler) asyncImport(walletId string) (finish bool, err error) {
 					return err
 				}
 				if rec == nil {
-					logging.CPrint(logging.ERROR, "unexpected error, tx is not relevant",
+					// indexed under one of the wallet's script hashes, but every such output
+					// carries a script the wallet does not support (e.g. a binding target
+					// without address form): nothing to record, as in filterTx
+					logging.CPrint(logging.WARN, "indexed tx is not relevant, skipped",
 						logging.LogFormat{
-							"tx":     rec.Hash.String(),
+							"tx":     msg.TxHash().String(),
 							"block":  blockMeta.Hash.String(),
 							"height": blockMeta.Height,
 						})
-					return fmt.Errorf("unexpected error: tx is not relevant")
+					continue
 				}
 				rec.TxLoc = txloc
 
